@@ -8,6 +8,7 @@
 #include <fcntl.h>
 
 extern const module_t *const all_modules[];
+extern const int all_modules_n;
 
 #define MAXW 32
 #define MAXLAB 384
@@ -528,7 +529,7 @@ static int do_shrink(const char *file, const char *outfile) {
 
 static int do_list(void) {
     int i;
-    for (i = 0; all_modules[i]; i++) printf("%s\n", all_modules[i]->name);
+    for (i = 0; i < all_modules_n; i++) if (all_modules[i]) printf("%s\n", all_modules[i]->name);
     return 0;
 }
 
@@ -558,7 +559,7 @@ int main(int argc, char **argv) {
     }
     (void)writecase;
     if (!modname) { fprintf(stderr, "--module required\n"); return 2; }
-    for (i = 0; all_modules[i]; i++) if (!strcmp(all_modules[i]->name, modname)) M = all_modules[i];
+    for (i = 0; i < all_modules_n; i++) if (all_modules[i] && !strcmp(all_modules[i]->name, modname)) M = all_modules[i];
     if (!M) { fprintf(stderr, "no module %s\n", modname); return 2; }
     if (NW < 1) NW = 1;
     if (NW > MAXW) NW = MAXW;
